@@ -785,9 +785,13 @@ func (m *Manager) computeMedianFee() types.Currency {
 	return *m.txpool.medianFee
 }
 
-func (m *Manager) computeParentMap() map[types.Hash256]int {
+func (m *Manager) computeParentMap(v2 bool) map[types.Hash256]int {
+	// the map holds indices into either txpool.txns or txpool.v2txns
 	parentMap := make(map[types.Hash256]int)
 	for index, txn := range m.txpool.txns {
+		if v2 {
+			break
+		}
 		for i := range txn.SiacoinOutputs {
 			parentMap[types.Hash256(txn.SiacoinOutputID(i))] = index
 		}
@@ -802,6 +806,9 @@ func (m *Manager) computeParentMap() map[types.Hash256]int {
 		}
 	}
 	for index, txn := range m.txpool.v2txns {
+		if !v2 {
+			break
+		}
 		txid := txn.ID()
 		for i := range txn.SiacoinOutputs {
 			parentMap[types.Hash256(txn.SiacoinOutputID(txid, i))] = index
@@ -1133,7 +1140,7 @@ func (m *Manager) UnconfirmedParents(txn types.Transaction) []types.Transaction 
 	defer m.mu.Unlock()
 	m.revalidatePool()
 
-	parentMap := m.computeParentMap()
+	parentMap := m.computeParentMap(false)
 	var parents []types.Transaction
 	seen := make(map[int]bool)
 	check := func(id types.Hash256) {
@@ -1186,7 +1193,7 @@ func (m *Manager) V2TransactionSet(basis types.ChainIndex, txn types.V2Transacti
 	m.revalidatePool()
 
 	// get the transaction's parents
-	parentMap := m.computeParentMap()
+	parentMap := m.computeParentMap(true)
 	var parents []types.V2Transaction
 	seen := make(map[int]bool)
 	check := func(id types.Hash256) {
